@@ -23,6 +23,13 @@ impl SourceFileMap {
         self.file_line_ranges.push(SourceLineRanges::default());
     }
 
+    /// Add a file line that has a BASIC line number but doesn't define that
+    /// line in the program (it has no statements, or couldn't be tokenized),
+    /// so program locations must not be mapped to it.
+    pub(crate) fn add_undefined(&mut self, ranges: SourceLineRanges) {
+        self.file_line_ranges.push(ranges);
+    }
+
     pub(crate) fn add(&mut self, basic_line: u64, ranges: SourceLineRanges) {
         let file_line_number = self.file_line_ranges.len();
         self.basic_lines_to_file_lines
